@@ -120,6 +120,9 @@ def check(mod, run, a):
         for lm in reg.lemmas:
             ob = symex.Obligation('lemma:' + lm['name'], lm['hyps'], lm['goal'], 'lemma', lm.get('note', ''), info={'contract': 'lemmas', 'fn': '-', 'inputs': lm.get('inputs', []), 'config': cfgname})
             eng.obligations.append(ob)
+        for sf in reg.static:
+            for (nm, holds, note) in sf(eng):
+                eng.obligations.append(symex.Obligation('static:' + nm, [], z3.BoolVal(bool(holds)), 'lemma', note, info={'contract': 'static facts', 'fn': '-', 'inputs': [], 'config': cfgname}))
         run.obs += eng.obligations
         run.functions |= eng.fns_executed
         run.models_used |= eng.models.e.models_used
